@@ -324,6 +324,9 @@ func main() {
 				}
 				src := strings.ReplaceAll(strings.ReplaceAll(s.tmpl, "%P", c.prefix), "%E", sh.expr)
 				progs = append(progs, prog{fmt.Sprintf("slot %q, %s, %s", s.name, sh.name, c.name), src})
+				if c.prefix == "" {
+					progs = append(progs, prog{fmt.Sprintf("slot %q, %s, CRLF line endings", s.name, sh.name), strings.ReplaceAll(src, "\n", "\r\n")})
+				}
 			}
 		}
 	}
